@@ -23,7 +23,7 @@ if surv:
         out.append(f"* `{n}` (targeted {', '.join(r[n]['expected'])}): {EQUIV.get(n, 'NOT YET EXPLAINED')}")
     out.append("")
 out.append("Invalid (listed for completeness): " + ", ".join(f"`{n}`" for n in sorted(invalid)) + ".\n")
-out.append("**Changes seeded by independent sub-agents** (three rounds of one per property; each confirmed in a scratch worktree: demonstration passes on the original, existing suite passes with the change, demonstration fails with the change; then all twenty quick checks were run against it). Round 1 asked for a change that needs something specific to manifest; round 2 (`-r2`) told the sub-agent that a boundary-value-oriented property-based harness exists and asked for a defect that is harder to find (conjunctions, deeper state, less obvious values); round 3 (`-r3`) additionally listed the two defects already caught for the property and the dimensions the harness had been extended with, and asked for a trigger in a dimension it is still unlikely to vary. The last column is the result with the checks as committed (after the strengthening described in 12.1 / 12.4).\n")
+out.append("**Changes seeded by independent sub-agents** (four rounds: one per property in rounds 1-3, ten properties in round 4; each confirmed in a scratch worktree: demonstration passes on the original, existing suite passes with the change, demonstration fails with the change; then all twenty quick checks were run against it). Round 1 asked for a change that needs something specific to manifest; round 2 (`-r2`) told the sub-agent that a boundary-value-oriented property-based harness exists and asked for a defect that is harder to find (conjunctions, deeper state, less obvious values); round 3 (`-r3`) additionally listed the two defects already caught for the property and the dimensions the harness had been extended with, and asked for a trigger in a dimension it is still unlikely to vary; round 4 (`-r4`) repeated that with the three defects already caught and the grown list of dimensions. The last column is the result with the checks as committed (after the strengthening described in 12.1 / 12.4): where a change carries a `revalidated` record (tools/revalidate_seeded.py: own check plus every check that caught it at confirmation time, re-run sequentially against the final harness and the final /repo HEAD) that record is shown, otherwise the result of the confirmation run.\n")
 out.append("| seeded for | what the change does (needs to manifest) | caught by |\n|---|---|---|")
 DESC = {}
 for f in sorted(glob.glob("/verif/seeded/*/meta.json"), key=lambda x: (x.split("/")[3][3:], x)):
@@ -40,9 +40,15 @@ for f in sorted(glob.glob("/verif/seeded/*/meta.json"), key=lambda x: (x.split("
         "C07-r3": " - **not detected, by design** (needs a stream that also misreports its size_hint; see 12.4)",
         "C11-r3": " - **not detected, by design** (equivalent under the stated schedule model; see 12.4)",
     }
-    if own not in m.get("caught_by", []):
+    rv = m.get("revalidated", {})
+    caught = rv["caught_by"] if "caught_by" in rv else m.get("caught_by", [])
+    if rv.get("status"):
+        notes = (notes or "") + " (re-validation: " + rv["status"][:80] + ")"
+    if rv.get("inconclusive"):
+        notes = (notes or "") + " (re-validation inconclusive for " + ", ".join(rv["inconclusive"]) + ")"
+    if own not in caught:
         notes = (notes or "") + NOTE.get(sid, " - NOT CAUGHT BY ITS OWN CHECK")
-    out.append(f"| {sid} | {notes or 'see seeded/' + sid + '/NOTES.md'}{'' if ok else ' (NOT CONFIRMED)'} | {', '.join(m.get('caught_by', []))} |")
+    out.append(f"| {sid} | {notes or 'see seeded/' + sid + '/NOTES.md'}{'' if ok else ' (NOT CONFIRMED)'} | {', '.join(caught)} |")
 out.append("")
 p = "/verif/DESIGN.md"; s = open(p).read()
 s = re.sub(r"<!-- RESULTS:BEGIN -->.*<!-- RESULTS:END -->", "<!-- RESULTS:BEGIN -->\n" + "\n".join(out).replace("\\", "\\\\") + "\n<!-- RESULTS:END -->", s, flags=re.S)
